@@ -260,6 +260,22 @@ func (h *H) c03RunMutant(r *c03Repo, class string, muts []c03Mut) {
 	h.Rec("listed", listed...)
 	h.Rec("self", self...)
 
+	h.c03Observe(r, cli, 1)
+}
+
+func c03Worse(a, b string) string {
+	for _, bad := range []string{"diff", "panic"} {
+		if a == bad || b == bad {
+			return bad
+		}
+	}
+	return b
+}
+
+// c03Observe runs check --read-data once and restore / dump of every snapshot `repeats` times
+// (with a shared persistent cache the second run may be served from what the first one left
+// there); the reported outcome of a repeated command is the worst one.
+func (h *H) c03Observe(r *c03Repo, cli *CLI, repeats int) {
 	res := c03Timeout(cli, 120*time.Second, "check", "--read-data")
 	switch {
 	case res.Panic != "":
@@ -271,36 +287,72 @@ func (h *H) c03RunMutant(r *c03Repo, class string, muts []c03Mut) {
 	}
 	var rest, dump []string
 	for i, s := range r.snaps {
-		t := filepath.Join(r.work, fmt.Sprintf("t%d", i))
-		os.RemoveAll(t)
-		rr := c03Timeout(cli, 120*time.Second, "restore", s.id, "--target", t)
-		switch {
-		case rr.Panic != "":
-			rest = append(rest, "panic")
-		case rr.Err != nil:
-			rest = append(rest, "fail")
-		case c03TreeDigest(t) == s.digest:
-			rest = append(rest, "same")
-		default:
-			rest = append(rest, "diff")
+		ro, do := "", ""
+		for rep := 0; rep < repeats; rep++ {
+			t := filepath.Join(r.work, fmt.Sprintf("t%d", i))
+			os.RemoveAll(t)
+			rr := c03Timeout(cli, 120*time.Second, "restore", s.id, "--target", t)
+			var o string
+			switch {
+			case rr.Panic != "":
+				o = "panic"
+			case rr.Err != nil:
+				o = "fail"
+			case c03TreeDigest(t) == s.digest:
+				o = "same"
+			default:
+				o = "diff"
+			}
+			ro = c03Worse(ro, o)
+			os.RemoveAll(t)
+			dr := c03Timeout(cli, 120*time.Second, "dump", s.id, s.dfile)
+			sum := sha256.Sum256([]byte(dr.Stdout))
+			switch {
+			case dr.Panic != "":
+				o = "panic"
+			case dr.Err != nil:
+				o = "fail"
+			case hex.EncodeToString(sum[:]) == s.dsha:
+				o = "same"
+			default:
+				o = "diff"
+			}
+			do = c03Worse(do, o)
 		}
-		os.RemoveAll(t)
-		dr := c03Timeout(cli, 120*time.Second, "dump", s.id, s.dfile)
-		sum := sha256.Sum256([]byte(dr.Stdout))
-		switch {
-		case dr.Panic != "":
-			dump = append(dump, "panic")
-		case dr.Err != nil:
-			dump = append(dump, "fail")
-		case hex.EncodeToString(sum[:]) == s.dsha:
-			dump = append(dump, "same")
-		default:
-			dump = append(dump, "diff")
-		}
+		rest = append(rest, ro)
+		dump = append(dump, do)
 	}
 	h.Rec("restore", rest...)
 	h.Rec("dump", dump...)
 	h.End()
+}
+
+// c03RunSwap: the stored bytes of file a are replaced by the AUTHENTIC bytes of file b of the same
+// type (misdirected write / confused sync tool); the commands run twice with a persistent local
+// cache shared between the runs (the default mode of restore / dump; all other mutants run with
+// --no-cache).
+func (h *H) c03RunSwap(r *c03Repo, a, b string) {
+	st := BeState{}
+	for k, v := range r.state {
+		st[k] = v
+	}
+	st[a] = r.state[b]
+	cdir := filepath.Join(r.work, "cache")
+	os.RemoveAll(cdir)
+	defer os.RemoveAll(cdir)
+	cli := NewCLI(LoadBackend(st))
+	cli.Extra = []string{"--no-cache=false", "--cache-dir", cdir}
+	h.Case("mutant")
+	ft := a[:strings.IndexByte(a, '/')]
+	h.Rec("site", c03KindName[ft], "swapped", "0", "0", Itoa(len(r.state[a])), "-")
+	var listed, self []string
+	for _, s := range r.snaps {
+		listed = append(listed, "1")
+		self = append(self, B(a == "snapshot/"+s.id))
+	}
+	h.Rec("listed", listed...)
+	h.Rec("self", self...)
+	h.c03Observe(r, cli, 2)
 }
 
 func streamC03(h *H) {
@@ -374,6 +426,17 @@ func streamC03(h *H) {
 				ms = append(ms, all[h.Intn(len(all))])
 			}
 			h.c03RunMutant(r, "multi", ms)
+		}
+		// swapped files of equal type, with a persistent cache
+		for _, typ := range []string{"snapshot", "index"} {
+			ks := r.state.Names(typ)
+			for i := range ks {
+				for j := range ks {
+					if i != j {
+						h.c03RunSwap(r, ks[i], ks[j])
+					}
+				}
+			}
 		}
 		// the unmutated repository is a case too (everything must be clean)
 		h.c03RunMutant(r, "single", []c03Mut{{keys[0], "none", 0, 0}})
